@@ -86,7 +86,7 @@ class PyEcoreValue(object):
                               .remove_or_unset(value)
             value._container = self.owner
             value._containment_feature = self.feature
-        if previous_value:
+        if previous_value and previous_value is not value:
             previous_value._container = None
             previous_value._containment_feature = None
 
